@@ -87,11 +87,18 @@ impl Directory {
         // shorter than a WAL file. Left as is, it is unreadable if it is the only file, and once
         // the writer rolls over into it, it grows as it is written and its trailing partial
         // block is ignored by the next restart. Finish the interrupted creation.
+        #[cfg(mrecordlog_verif)]
+        crate::verif::maybe_fail(crate::verif::FaultSite::OpenFile)?;
         let last_file = OpenOptions::new()
             .write(true)
             .open(filepath(dir_path, files.last()))?;
         if last_file.metadata()?.len() < FILE_NUM_BYTES as u64 {
             last_file.set_len(FILE_NUM_BYTES as u64)?;
+            #[cfg(mrecordlog_verif)]
+            crate::verif::emit(crate::verif::IoEvent::SetLen {
+                file: files.last().file_number(),
+                len: FILE_NUM_BYTES as u64,
+            });
         }
         Ok(Directory {
             dir: dir_path.to_path_buf(),
